@@ -97,7 +97,10 @@ def check_free(p: G.Program, res: Result = None, out=None, trace=None):
     core = G.core_defs() if p.import_coredefs else None
     exp = p.expected_registry()
     # every file read exactly once
-    user_files = [str(f) for f in ps.included_files if "core_defs" not in str(f)]
+    import pyrtma
+
+    pkg_core = os.path.join(os.path.dirname(os.path.realpath(pyrtma.__file__)), "core_defs") + os.sep
+    user_files = [str(f) for f in ps.included_files if not os.path.realpath(str(f)).startswith(pkg_core)]  # a user directory may be called core_defs too
     if len(user_files) != len(set(user_files)) or len(user_files) != len(p.specs):
         raise Violation("free/file-read-count", f"{len(p.specs)} files in the closure, the parser read {len(user_files)} "
                         f"({len(set(user_files))} distinct)", trace)
